@@ -440,6 +440,7 @@ class SimpleOp(Contract):
         'subsetVariables': ('subsetVariables', [['v', 'w']], {}),
         'subsetVariables(exclude)': ('subsetVariables', [['u']], dict(exclude=True)),
         'renameVariable': ('renameVariable', ['v', 'renamed'], {}),
+        'renameVariable(to its own name)': ('renameVariable', ['v', 'v'], {}),
         'renameDimension': ('renameDimension', ['t', 'time'], {}),
         'removeSingleton': ('removeSingleton', [], {}),
         'insertDimension(z=K)': ('insertDimension', [], {}),
@@ -487,7 +488,7 @@ class SimpleOp(Contract):
     def expected(self):
         """{result variable name: (source variable, result dimension tuple, source index as a function of the result index)}"""
         ident = lambda dims: (lambda idx: tuple(idx))
-        if self.op == 'copy':
+        if self.op in ('copy', 'renameVariable(to its own name)'):
             return {k: (k, d, ident(d)) for k, d in self.vd.items()}, dict(t=self.n['t'], y=self.n['y'], s=1)
         if self.op == 'subsetVariables':
             return {k: (k, self.vd[k], ident(0)) for k in ('v', 'w')}, dict(t=self.n['t'], y=self.n['y'], s=1)
@@ -584,6 +585,10 @@ class SimpleOp(Contract):
                 bad.append('dimensions %r expected %r' % ({d: len(v) for d, v in g.dimensions.items()}, {d: int(v) for d, v in dimlens.items()}))
             if sorted(g.variables.keys()) != sorted(exp.keys()):
                 bad.append('variables %r expected %r' % (sorted(g.variables.keys()), sorted(exp.keys())))
+            tname = 'time' if self.op == 'renameDimension' else 't'
+            for d, dv in g.dimensions.items():
+                if bool(dv.isunlimited()) != (d == tname):
+                    bad.append('dimension %s: unlimited flag %s, expected %s' % (d, bool(dv.isunlimited()), d == tname))
             for rk, (sk, rdims, srcidx) in exp.items():
                 if rk not in g.variables:
                     continue
@@ -600,6 +605,18 @@ class SimpleOp(Contract):
             for k in self.vd:
                 if k not in f.variables or not np.array_equal(np.asarray(f.variables[k][...]), data[k]) or tuple(f.variables[k].dimensions) != self.vd[k]:
                     bad.append('input variable %s changed' % k)
+            if g is f:
+                bad.append('the result is the receiver itself, not a new file')
+            elif not bad:
+                # fresh buffers: writing into every variable of the result leaves the source data alone
+                for rk in list(g.variables):
+                    try:
+                        g.variables[rk][...] = -7.
+                    except Exception:
+                        pass
+                for k in self.vd:
+                    if not np.array_equal(np.asarray(f.variables[k][...]), data[k]):
+                        bad.append('writing into the result changed input variable %s' % k)
             if bad:
                 return False, dict(op=self.op, nt=nt, ny=ny, failed=bad)
         return True, dict(op=self.op)
